@@ -1505,13 +1505,15 @@ def impl(case):
     again = _eval_plain(case["expr"], case["env"]) if case.get("kind", "str") == "str" else None
     if case.get("kind") == "node" and not log["why"]:
         log["why"] = "real-tree-nodes"
-    refl = bool(log.get("fmt_refl"))
+    # text rendered from frames / namespaces (reprs of live objects) legitimately differs between evaluations; decided by
+    # the recorded traversal, or — for a formatter that does not go through string.Formatter.get_field — by the text
+    refl = bool(log.get("fmt_refl")) or bool(re.search(r"\b(gi_|f_globals|f_locals|f_builtins|f_code|f_back|co_)", case.get("expr") or ""))
     same = (lambda a, b: _shape(a) == _shape(b)) if refl else (lambda a, b: _noaddr(a) == _noaddr(b))
     if again is not None and not same(again, p["res"]):
         obs["order_diff"] = [[case["expr"], _trim_res(p["res"]), _trim_res(again)]]
     state += _state_probe("after the repeated evaluation")
     obs["res"] = _trim_res(p["res"]) if (refl or case.get("kind") == "node") else p["res"]
-    if refl:
+    if log.get("fmt_refl"):
         obs["fmt_refl"] = log["fmt_refl"]
         obs["refl_ns"] = log.get("refl_ns")
     if i.get("res_abs") is not None and i.get("res_abs") != i.get("res"):
@@ -1609,6 +1611,10 @@ def monitor(case, obs):
             hits.append({"prop": "C19", "key": "name-outside-whitelist",
                          "what": "constraints path resolved identifier %r which is neither from/to nor a documented whitelisted builtin, or not from the given locals (%s)" % (n, label)})
         return hits
+    if case.get("meta") == "api-dump-failed":
+        hits.append({"prop": "C19", "key": "harness-api-sweep-unavailable",
+                     "what": "the public API of the node classes of the tree under test could not be listed (subprocess "
+                             "`_api_dump` failed): the deterministic exposure sweep did not run"})
     if obs.get("parse") != "ok":
         return hits
     seen = set()
@@ -2425,6 +2431,9 @@ def gen_api_sweep():
         return c
 
     api = node_api()
+    if not api:
+        # never silently: without the API listing the sweep is empty and a new exposing method would go unnoticed
+        return [{"kind": "node", "expr": "from", "docs": NODE_DOCS[3], "sel": [0, 0], "meta": "api-dump-failed"}]
     # nodes that own a name first: `from.get('_children')` should run on a node that has `_children`
     for own in (True, False):
         for nd in api:
